@@ -34,6 +34,7 @@ const (
 
 type cmafIngesterMgr struct {
 	nr        atomic.Uint64
+	mu        sync.RWMutex // protects ingesters and cancels
 	ingesters map[uint64]*cmafIngester
 	state     ingesterState
 	s         *Server
@@ -75,11 +76,51 @@ func (cm *cmafIngesterMgr) Start() {
 }
 
 func (cm *cmafIngesterMgr) Close() {
+	cm.mu.RLock()
+	cancels := make([]context.CancelFunc, 0, len(cm.cancels))
 	for i, cancel := range cm.cancels {
 		if cm.ingesters[i].state == ingesterStateRunning {
-			cancel()
+			cancels = append(cancels, cancel)
 		}
 	}
+	cm.mu.RUnlock()
+	for _, cancel := range cancels {
+		cancel()
+	}
+}
+
+// addIngester registers a new ingester.
+func (cm *cmafIngesterMgr) addIngester(nr uint64, c *cmafIngester) {
+	cm.mu.Lock()
+	defer cm.mu.Unlock()
+	cm.ingesters[nr] = c
+}
+
+// getIngester returns the ingester with number nr, if there is one.
+func (cm *cmafIngesterMgr) getIngester(nr uint64) (c *cmafIngester, ok bool) {
+	cm.mu.RLock()
+	defer cm.mu.RUnlock()
+	c, ok = cm.ingesters[nr]
+	return c, ok
+}
+
+// setCancel registers the function that stops ingester nr.
+func (cm *cmafIngesterMgr) setCancel(nr uint64, cancel context.CancelFunc) {
+	cm.mu.Lock()
+	defer cm.mu.Unlock()
+	cm.cancels[nr] = cancel
+}
+
+// cancel stops ingester nr. It returns false if the ingester has not been started.
+func (cm *cmafIngesterMgr) cancel(nr uint64) bool {
+	cm.mu.RLock()
+	cancel, ok := cm.cancels[nr]
+	cm.mu.RUnlock()
+	if !ok {
+		return false
+	}
+	cancel()
+	return true
 }
 
 func (cm *cmafIngesterMgr) NewCmafIngester(req CmafIngesterSetup) (nr uint64, err error) {
@@ -181,20 +222,20 @@ func (cm *cmafIngesterMgr) NewCmafIngester(req CmafIngesterSetup) (nr uint64, er
 		nextSegTrigger: make(chan struct{}),
 		done:           make(chan struct{}),
 	}
-	cm.ingesters[nr] = &c
+	cm.addIngester(nr, &c)
 
 	return nr, nil
 }
 
 func (cm *cmafIngesterMgr) startIngester(nr uint64) {
-	c, ok := cm.ingesters[nr]
+	c, ok := cm.getIngester(nr)
 	if !ok {
 		return
 	}
 	var ctx context.Context
 	var cancel context.CancelFunc
 	ctx, cancel = context.WithCancel(context.Background())
-	cm.cancels[nr] = cancel
+	cm.setCancel(nr, cancel)
 	go c.start(ctx)
 }
 
